@@ -35,6 +35,12 @@ func DeepCopy(node Node, document *Document) Node {
 	// example, husband, wife and child nodes.
 	var family *FamilyNode
 
+	// A husband, wife or child may be copied on its own. It belongs to the
+	// same family until a family is copied.
+	if familyNoder, ok := node.(FamilyNoder); ok {
+		family = familyNoder.Family()
+	}
+
 	return Filter(node, document, func(node Node) (newNode Node, traverseChildren bool) {
 		if fam, ok := node.(*FamilyNode); ok {
 			family = fam
